@@ -111,12 +111,18 @@ def prune_builds(name, keep=2):
 
 
 def run(cmd, timeout=None, env=None, cwd=None, stdin=None):
-    try:
-        p = subprocess.run(cmd, stdout=subprocess.PIPE, stderr=subprocess.PIPE, timeout=timeout,
-                           env=env or RUN_ENV, cwd=cwd, input=stdin)
+    """Runs one subprocess.  A process that was killed with SIGKILL from outside (the kernel's
+    out-of-memory killer on a loaded machine) says nothing about the tree: it is repeated once,
+    so only a death that repeats reaches the caller."""
+    for attempt in (0, 1):
+        try:
+            p = subprocess.run(cmd, stdout=subprocess.PIPE, stderr=subprocess.PIPE, timeout=timeout,
+                               env=env or RUN_ENV, cwd=cwd, input=stdin)
+        except subprocess.TimeoutExpired as e:
+            return -999, (e.stdout or b"").decode(errors="replace"), (e.stderr or b"").decode(errors="replace")
+        if p.returncode == -9 and attempt == 0:
+            continue
         return p.returncode, p.stdout.decode(errors="replace"), p.stderr.decode(errors="replace")
-    except subprocess.TimeoutExpired as e:
-        return -999, (e.stdout or b"").decode(errors="replace"), (e.stderr or b"").decode(errors="replace")
 
 
 def parallel(jobs, fn, workers=None):
